@@ -41,18 +41,67 @@ type bConfig struct {
 	TZ      string `json:"tz"`
 	Cluster bool   `json:"cluster"`
 	Retry   int    `json:"retry_attempts"`
-	Depth   int    `json:"depth"`
-	First   int    `json:"first"` // -1: whole tree; otherwise only histories starting with this event
+	// Budget bounds the total size of a history: a control event costs 1, a push costs its number of entries.
+	Budget int `json:"budget"`
+	// MaxEntries bounds the request shapes in the alphabet: 1 = one stream with one entry (histories are then plain
+	// depth-bounded), up to 4 = every shape of 1-2 streams x 1-2 entries.
+	MaxEntries int `json:"max_entries"`
+	Shard      int `json:"shard"`  // the i-th first event is explored by shard i % Shards
+	Shards     int `json:"shards"` // 0/1: whole tree
 	// replay mode
 	History []string `json:"history,omitempty"`
 }
 
-var bEvents = []string{
-	"push:A:D", "push:A:D+1", "push:A:LM1", "push:A:UM1",
-	"push:B:D", "push:B:D+1", "push:B:LM1", "push:B:UM1",
-	"ts_fail", "ts_ok", "spl_fail", "spl_ok",
-	"retry", "cache_reset", "midnight",
-	"pushbad:A", "pushbad:B",
+// Day classes of a sample instant (base day D = 2024-01-10, shifted by a day after `midnight`).
+var dayClasses = []string{"D", "D+1", "UM-1", "UM+1", "LM-1", "LM+1"}
+
+var controlEvents = []string{"ts_fail", "ts_ok", "spl_fail", "spl_ok", "retry", "cache_reset", "midnight", "pushbad:A", "pushbad:B"}
+
+// pushEvents: every request shape of 1-2 streams (series A or B each, so "same series twice" and "two series" are
+// both in), each stream with 1-2 entries whose instants are drawn from the day classes in every order, with at
+// most maxEntries entries in total.  Syntax: push:A[D,UM+1]&A[LM-1].
+func pushEvents(maxEntries int) []string {
+	var lists []string // entry lists of one stream
+	for _, a := range dayClasses {
+		lists = append(lists, a)
+	}
+	for _, a := range dayClasses {
+		for _, b := range dayClasses {
+			lists = append(lists, a+","+b)
+		}
+	}
+	n := func(l string) int { return strings.Count(l, ",") + 1 }
+	var out []string
+	for _, s1 := range []string{"A", "B"} {
+		for _, l1 := range lists {
+			if n(l1) <= maxEntries {
+				out = append(out, fmt.Sprintf("push:%s[%s]", s1, l1))
+			}
+		}
+	}
+	for _, s1 := range []string{"A", "B"} {
+		for _, l1 := range lists {
+			for _, s2 := range []string{"A", "B"} {
+				for _, l2 := range lists {
+					if n(l1)+n(l2) <= maxEntries {
+						out = append(out, fmt.Sprintf("push:%s[%s]&%s[%s]", s1, l1, s2, l2))
+					}
+				}
+			}
+		}
+	}
+	return out
+}
+
+func alphabet(maxEntries int) []string {
+	return append(pushEvents(maxEntries), controlEvents...)
+}
+
+func eventCost(e string) int {
+	if strings.HasPrefix(e, "push:") {
+		return strings.Count(e, ",") + strings.Count(e, "[")
+	}
+	return 1
 }
 
 type bViolation struct {
@@ -125,9 +174,8 @@ type akey struct {
 }
 
 type pushRec struct {
-	Series string
-	Ts     int64
-	Bad    bool
+	Event string // the push / pushbad event as written
+	Clock int    // the clock at the time (a retry re-sends the same instants)
 }
 
 type world struct {
@@ -195,7 +243,7 @@ func newWorld(cfg bConfig) *world {
 	}
 	w.resetHistory()
 	// warm-up request (connects both services), then take the goroutine baseline
-	w.push("W", time.Date(2020, 1, 1, 12, 0, 0, 0, time.UTC).UnixNano(), false)
+	w.push("push:W[D]", -1000)
 	time.Sleep(20 * time.Millisecond)
 	w.baseline = runtime.NumGoroutine()
 	w.resetHistory()
@@ -327,20 +375,55 @@ func tsOf(day string, clock int) int64 {
 		t = time.Date(2024, 1, 10, 12, 0, 0, 0, time.UTC)
 	case "D+1":
 		t = time.Date(2024, 1, 11, 12, 0, 0, 0, time.UTC)
-	case "LM1": // one second before local midnight
-		t = time.Date(2024, 1, 10, 23, 59, 59, 0, time.Local)
-	case "UM1": // one second before UTC midnight
+	case "UM-1": // one second before UTC midnight
 		t = time.Date(2024, 1, 10, 23, 59, 59, 0, time.UTC)
+	case "UM+1": // one second after UTC midnight
+		t = time.Date(2024, 1, 11, 0, 0, 1, 0, time.UTC)
+	case "LM-1": // one second before local midnight
+		t = time.Date(2024, 1, 10, 23, 59, 59, 0, time.Local)
+	case "LM+1": // one second after local midnight
+		t = time.Date(2024, 1, 11, 0, 0, 1, 0, time.Local)
 	default:
-		panic("day " + day)
+		panic("day class " + day)
 	}
 	return t.UnixNano() + int64(clock)*86400*1e9
 }
 
-// push sends one Loki JSON request carrying one line of series {app=<series>} at ts (bad: followed by a stream the
-// server rejects) and folds the outcome into the state.
-func (w *world) push(series string, ts int64, bad bool) int {
-	st := []ir.Stream{{Labels: []ir.Label{{Name: "app", Value: strings.ToLower(series)}}, Entries: []ir.Entry{{TsNs: ts, Line: "l", Type: ir.TypeLog}}}}
+// requestOf turns a push / pushbad event into the streams of the request.  Series X is {app=x, env=p}; when a series
+// occurs a second time in the request its labels are written in the other order.  Two entries of one series with the
+// same day class get instants 1 ns apart so that every submitted entry is its own row.
+func requestOf(e string, clock int) (streams []ir.Stream, bad bool) {
+	f := strings.SplitN(e, ":", 2)
+	spec := f[1]
+	if f[0] == "pushbad" {
+		bad = true
+		spec = f[1] + "[D]"
+	}
+	seenSeries := map[string]int{}
+	seenInstant := map[string]int64{}
+	for _, part := range strings.Split(spec, "&") {
+		i := strings.IndexByte(part, '[')
+		series, list := part[:i], part[i+1:len(part)-1]
+		labels := []ir.Label{{Name: "app", Value: strings.ToLower(series)}, {Name: "env", Value: "p"}}
+		if seenSeries[series]%2 == 1 {
+			labels[0], labels[1] = labels[1], labels[0]
+		}
+		seenSeries[series]++
+		st := ir.Stream{Labels: labels}
+		for _, dc := range strings.Split(list, ",") {
+			k := series + "/" + dc
+			st.Entries = append(st.Entries, ir.Entry{TsNs: tsOf(dc, clock) + seenInstant[k], Line: "l", Type: ir.TypeLog})
+			seenInstant[k]++
+		}
+		streams = append(streams, st)
+	}
+	return streams, bad
+}
+
+// push sends one Loki JSON request (bad: followed by a stream the server rejects with 400) through the real
+// handler and folds the outcome into the state.
+func (w *world) push(event string, clock int) int {
+	st, bad := requestOf(event, clock)
 	body, err := ir.RenderLokiJSON(st, ir.Opt{})
 	if err != nil {
 		panic(err)
@@ -451,19 +534,14 @@ func (w *world) apply(e string) string {
 	f := strings.Split(e, ":")
 	switch f[0] {
 	case "push", "pushbad":
-		ts := tsOf("D", w.clock)
-		if f[0] == "push" {
-			ts = tsOf(f[2], w.clock)
-		}
-		bad := f[0] == "pushbad"
-		code := w.push(f[1], ts, bad)
-		w.last = &pushRec{f[1], ts, bad}
+		code := w.push(e, w.clock)
+		w.last = &pushRec{e, w.clock}
 		return fmt.Sprintf("%s:%d", f[0], code)
 	case "retry":
 		if w.last == nil {
 			return ""
 		}
-		code := w.push(w.last.Series, w.last.Ts, w.last.Bad)
+		code := w.push(w.last.Event, w.last.Clock)
 		return fmt.Sprintf("retry:%d", code)
 	case "ts_fail":
 		if w.fake.Fail("time_series") >= w.cfg.Retry {
@@ -513,7 +591,7 @@ func (w *world) key() string {
 	var sb strings.Builder
 	fmt.Fprintf(&sb, "c%d tf%d sf%d ", w.clock, w.fake.Fail("time_series"), w.fake.Fail("samples"))
 	if w.last != nil {
-		fmt.Fprintf(&sb, "last=%s@%d/%v ", w.last.Series, w.last.Ts, w.last.Bad)
+		fmt.Fprintf(&sb, "last=%s@%d ", w.last.Event, w.last.Clock)
 	}
 	var a []string
 	for k := range w.acked {
@@ -704,24 +782,43 @@ func workerMain(arg string) {
 		fmt.Println(string(b))
 		return
 	}
-	visited := map[string]struct{}{}
+	// Exploration by total history size: bucket[c] holds the states whose cheapest known history costs c; a state is
+	// expanded with every event that still fits into the budget.  A state found again by a cheaper history moves to
+	// the cheaper bucket (it has more budget left), so the explored set is exactly "all histories of size <= Budget".
+	events := alphabet(cfg.MaxEntries)
+	best := map[string]int{}
 	w.resetHistory()
-	visited[w.key()] = struct{}{}
-	frontier := []*snap{w.snapshot(nil)}
+	best[w.key()] = 0
+	buckets := make([][]*snap, cfg.Budget+1)
+	buckets[0] = []*snap{w.snapshot(nil)}
+	bucketKey := map[*snap]string{}
+	bucketKey[buckets[0][0]] = w.key()
 	perClass := map[string]int{}
 	validated := 0
-	for depth := 1; depth <= cfg.Depth && len(frontier) > 0; depth++ {
-		var next []*snap
-		for fi, sn := range frontier {
+	violating := map[string]string{} // state key -> class (a state may be re-bucketed; count it once)
+	stop := false
+	for c := 0; c <= cfg.Budget && !stop; c++ {
+		for fi := 0; fi < len(buckets[c]) && !stop; fi++ {
+			sn := buckets[c][fi]
+			if best[bucketKey[sn]] != c {
+				continue // re-bucketed to a cheaper level, already expanded there
+			}
 			if !deadline.IsZero() && time.Now().After(deadline) {
-				res.Frontier = len(frontier) - fi + len(next)
-				res.Notes = append(res.Notes, fmt.Sprintf("deadline reached at depth %d", depth))
-				frontier = nil
-				next = nil
+				left := 0
+				for c2 := c; c2 <= cfg.Budget; c2++ {
+					left += len(buckets[c2])
+				}
+				res.Frontier = left - fi
+				res.Notes = append(res.Notes, fmt.Sprintf("deadline reached at history size %d", c))
+				stop = true
 				break
 			}
-			for ei, e := range bEvents {
-				if depth == 1 && cfg.First >= 0 && ei != cfg.First {
+			for ei, e := range events {
+				ec := eventCost(e)
+				if c+ec > cfg.Budget {
+					continue
+				}
+				if c == 0 && cfg.Shards > 1 && ei%cfg.Shards != cfg.Shard {
 					continue
 				}
 				w.restore(sn)
@@ -732,41 +829,47 @@ func workerMain(arg string) {
 				res.Transitions++
 				res.Outcomes[strings.SplitN(e, ":", 2)[0]+"->"+tok]++
 				k := w.key()
-				if _, seen := visited[k]; seen {
+				if old, seen := best[k]; seen && old <= c+ec {
 					continue
 				}
-				visited[k] = struct{}{}
-				res.States++
-				if depth > res.MaxDepth {
-					res.MaxDepth = depth
-				}
+				_, again := best[k]
+				best[k] = c + ec
 				h2 := append(append([]string{}, sn.Hist...), e)
-				c, what := w.check()
 				ns := w.snapshot(h2)
+				bucketKey[ns] = k
+				buckets[c+ec] = append(buckets[c+ec], ns)
+				if again {
+					continue // known state, only cheaper now: verdict already recorded
+				}
+				res.States++
+				if len(h2) > res.MaxDepth {
+					res.MaxDepth = len(h2)
+				}
+				cl, what := w.check()
 				// the restore shortcut must be indistinguishable from running the whole history on an empty world:
-				// every violating state that is reported, and every state up to depth 3, is re-derived by full replay
-				if (c != "" && perClass[c] < 2) || depth <= 3 {
+				// every violating state that is reported, and every state of size <= 2, is re-derived by full replay
+				if (cl != "" && perClass[cl] < 2) || c+ec <= 2 {
 					w.replayHistory(h2)
 					validated++
 					c2, _ := w.check()
-					if w.key() != k || c2 != c {
-						fmt.Fprintf(os.Stderr, "HARNESS-ERROR: restore and full replay disagree for %v:\n restore: %s %s\n replay:  %s %s\n", h2, k, c, w.key(), c2)
+					if w.key() != k || c2 != cl {
+						fmt.Fprintf(os.Stderr, "HARNESS-ERROR: restore and full replay disagree for %v:\n restore: %s %s\n replay:  %s %s\n", h2, k, cl, w.key(), c2)
 						os.Exit(2)
 					}
 				}
-				if c != "" {
-					res.ClassCount[c]++
-					perClass[c]++
-					if perClass[c] <= 2 {
-						res.Violations = append(res.Violations, bViolation{c, what, h2})
+				if cl != "" {
+					violating[k] = cl
+					res.ClassCount[cl]++
+					perClass[cl]++
+					if perClass[cl] <= 2 {
+						res.Violations = append(res.Violations, bViolation{cl, what, h2})
 					}
 				}
-				next = append(next, ns)
 			}
 		}
-		frontier = next
 	}
-	res.Notes = append(res.Notes, fmt.Sprintf("%d states re-derived by full replay from the empty world (all agreed with the restore shortcut)", validated))
+	visited := best
+	res.Notes = append(res.Notes, fmt.Sprintf("%d events in the alphabet (max %d entries per request); %d states re-derived by full replay from the empty world (all agreed with the restore shortcut)", len(events), cfg.MaxEntries, validated))
 	for k := range visited {
 		res.StateHashes = append(res.StateHashes, fnv64(k))
 	}
